@@ -164,6 +164,11 @@ func (e *Engine) verifyFunc(fi *funcInfo, c *FuncContract) (res *FuncResult) {
 			}
 		}
 	}
+	// ghost variables of the function: unconstrained at entry
+	for _, gv := range c.GhostVars {
+		gs, gt := fc.sortOfTypeName(gv.Type, &specCtx{names: st.names, pkg: fc.pkg.Types, pos: fi.decl.Body.Lbrace + 1})
+		st.names[gv.Name] = Val{T: fc.freshConst("gv_"+gv.Name, gs), Typ: gt}
+	}
 	// entry snapshot for old()
 	entrySnap := st.clone()
 	fc.entry = entrySnap
